@@ -552,8 +552,10 @@ class PUBLISH(object):
         self.dup    = (packet[0] & 0x08) == 0x08
         self.qos    = (packet[0] & 0x06) >> 1
         self.retain = (packet[0] & 0x01) == 0x01
-        self.topic, _  = decodeString(packet_remaining)
         topicLen       = decode16Int(packet_remaining)
+        if len(packet_remaining) < topicLen + (4 if self.qos else 2):
+            raise ValueError("PUBLISH packet shorter than its topic and packet identifier")
+        self.topic, _  = decodeString(packet_remaining)
         if self.qos:
             self.msgId = decode16Int( packet_remaining[topicLen+2:topicLen+4] )
             self.payload =  packet_remaining[topicLen+4:]
